@@ -10,6 +10,7 @@ import (
 	"encoding/json"
 	"flag"
 	"fmt"
+	"log"
 	"os"
 	"strings"
 	"sync"
@@ -39,9 +40,9 @@ func (d recDelegate) OnFinish(m *nsq.Message)                                   
 func (d recDelegate) OnRequeue(m *nsq.Message, delay time.Duration, backoff bool) { d.ch <- "REQ" }
 func (d recDelegate) OnTouch(m *nsq.Message)                                    {}
 
-func runN2N(tier string) partResult {
+func runN2N(tier string, shard int) partResult {
 	res := partResult{Outcomes: map[string]int{}, Extra: map[string]int{}}
-	verdicts := []string{"ok", "err", "close", "closebefore"}
+	verdicts := []string{"ok", "err", "close", "closebefore", "down"}
 	maxLen := 3
 	if tier == "thorough" {
 		maxLen = 4
@@ -58,9 +59,18 @@ func runN2N(tier string) partResult {
 		}
 	}
 	gen(nil)
+	noneWait, nones := 1500*time.Millisecond, 0
+	if os.Getenv("N2N_DEBUG") != "" {
+		strs = [][]string{{"ok", "ok", "down"}, {"ok", "err"}, {"ok"}}
+	}
 	cases := 0
+	cfgN := -1
 	for _, modeName := range []string{"round-robin", "hostpool", "epsilon-greedy"} {
 		for _, ndest := range []int{1, 2} {
+			cfgN++
+			if shard >= 0 && cfgN != shard {
+				continue
+			}
 			servers := []*fakensqd.Server{}
 			var addrs []string
 			producers := map[string]*nsq.Producer{}
@@ -70,6 +80,9 @@ func runN2N(tier string) partResult {
 				addrs = append(addrs, s.Addr())
 				p, _ := nsq.NewProducer(s.Addr(), nsq.NewConfig())
 				p.SetLogger(nil, nsq.LogLevelError)
+				if os.Getenv("N2N_DEBUG") != "" {
+					p.SetLogger(log.New(os.Stderr, "", log.Lmicroseconds), nsq.LogLevelDebug)
+				}
 				producers[s.Addr()] = p
 			}
 			selected := ModeRoundRobin
@@ -101,19 +114,39 @@ func runN2N(tier string) partResult {
 					delivered := false
 					for attempt := 0; attempt < 2*len(vs)+3 && !delivered; attempt++ {
 						ch := make(chan string, 2)
+						for _, s := range servers {
+							if s.Peek() == "down" {
+								// the destination has just gone down: give the producer the moment
+								// it needs to notice that its connection is gone
+								time.Sleep(30 * time.Millisecond)
+								break
+							}
+						}
 						m := nsq.NewMessage(nsq.MessageID{byte('0' + bi)}, body)
 						m.Delegate = recDelegate{ch: ch}
 						err := ph.HandleMessage(m, "dst")
+						if os.Getenv("N2N_DEBUG") != "" {
+							fmt.Fprintf(os.Stderr, "ATTEMPT script=%v body=%d attempt=%d err=%v\n", vs, bi, attempt, err)
+						}
 						verdict := ""
-						if err != nil {
-							verdict = "REQ" // the library requeues on a handler error
-						} else if !m.IsAutoResponseDisabled() {
-							verdict = "FIN" // the library finishes on nil
+						// what go-nsq's handlerLoop does with the handler's result: requeue on an error,
+						// finish on nil - but only if the handler did not disable auto-response, in
+						// which case the handler itself owes the answer
+						if err != nil && !m.IsAutoResponseDisabled() {
+							verdict = "REQ"
+						} else if err == nil && !m.IsAutoResponseDisabled() {
+							verdict = "FIN"
 						} else {
 							select {
 							case verdict = <-ch:
-							case <-time.After(3 * time.Second):
+							case <-time.After(noneWait):
+								// (the answer comes from the in-process responder goroutine within
+								// microseconds when it comes at all)
 								verdict = "NONE"
+								nones++
+								if nones >= 3 {
+									noneWait = 20 * time.Millisecond // already established; do not crawl
+								}
 							}
 						}
 						res.Evaluations++
@@ -136,10 +169,15 @@ func runN2N(tier string) partResult {
 							}
 							delivered = true
 						case "REQ":
-							// to be offered again
+							// to be offered again - as nsqd does, later: go-nsq needs up to ~100 ms to
+							// tear a dead connection down (Conn.cleanup polls on a 100 ms ticker) and
+							// answers "not connected" until then
+							if err != nil && strings.Contains(err.Error(), "not connected") {
+								time.Sleep(110 * time.Millisecond)
+							}
 						case "NONE":
 							res.Found = append(res.Found, vx.Found{Sig: "C20 nsq_to_nsq neither finished nor requeued a message :: nsq_to_nsq " + modeName,
-								Detail: fmt.Sprintf("mode %s, %d destination(s), verdict script %v: message %q got no answer within 3 s", modeName, ndest, vs, body),
+								Detail: fmt.Sprintf("mode %s, %d destination(s), verdict script %v: message %q got no answer (neither Finish nor Requeue, and auto-response disabled)", modeName, ndest, vs, body),
 								Replay: map[string]interface{}{"kind": "n2n", "mode": modeName, "dests": ndest, "verdicts": vs}})
 							delivered = true
 						}
@@ -150,7 +188,9 @@ func runN2N(tier string) partResult {
 					}
 					outcome += "/"
 				}
-				close(ph.respChan)
+				if !strings.Contains(outcome, "N") {
+					close(ph.respChan) // (left open when a transaction may still be pending)
+				}
 				res.Outcomes[fmt.Sprintf("nsq_to_nsq %s dests=%d script=%d => %s", modeName, ndest, len(vs), outcome)]++
 				if len(res.Samples) < 3 && len(vs) == maxLen {
 					res.Samples = append(res.Samples, map[string]interface{}{"tool": "nsq_to_nsq", "mode": modeName, "destinations": ndest, "verdicts": vs, "answers": outcome})
@@ -176,8 +216,9 @@ func init() {
 	fs := flag.NewFlagSet("n2n", flag.ExitOnError)
 	tier := fs.String("tier", "quick", "tier")
 	fs.Bool("part", true, "")
+	shard := fs.Int("shard", -1, "run only configuration number N (mode x destinations)")
 	fs.Parse(os.Args[1:])
-	b, _ := json.Marshal(runN2N(*tier))
+	b, _ := json.Marshal(runN2N(*tier, *shard))
 	os.Stdout.Write(b)
 	_ = strings.TrimSpace
 	os.Exit(0)
